@@ -146,7 +146,8 @@ func randFault(r *RNG, h *hist, kind string, npk, ntx int) (fault, attemptOpts) 
 	switch kind {
 	case "err":
 		f.code = uint16(r.Pick(1236, 1045, 2013, 1, 65535))
-		f.msg = r.Pickstr("Could not find first log file name in binary log index file", "binlog truncated in the middle of event", "#42000bad thing", "x")
+		f.msg = r.Pickstr("Could not find first log file name in binary log index file", "binlog truncated in the middle of event", "#42000bad thing", "x",
+			"rpc error: code = Canceled desc = context canceled", "context canceled", "EOF", "context deadline exceeded", "invalid connection", "")
 	case "cancel":
 		if r.Bool() {
 			o.cancelAfter = r.Intn(ntx + 1)
@@ -393,7 +394,7 @@ func extraC05(col *Collector, r *RNG, tier string) {
 		switch i % 10 {
 		case 0: // the attempt fails before a dump exists
 			opts = defaultOpts()
-			opts.refuse = r.Pickstr("close-on-accept", "handshake-err", "query-err", "rst-after-query", "dump-too-large", "dump-too-large")
+			opts.refuse = r.Pickstr("close-on-accept", "handshake-err", "query-err", "close-on-query", "rst-after-query", "dump-too-large", "dump-too-large")
 			if opts.refuse == "dump-too-large" {
 				// connection and checksum query succeed, then the COM_BINLOG_DUMP packet cannot be written: the file
 				// name makes it larger than the connection's max_allowed_packet (no reader goroutine was started)
@@ -656,7 +657,7 @@ func extraC07(col *Collector, r *RNG, tier string) {
 			// leave the stored position alone, and the next attempt must still ask for it
 			refused := a < attempts-1 && r.Chance(1, 4)
 			if refused {
-				opts.refuse = r.Pickstr("close-on-accept", "handshake-err", "query-err")
+				opts.refuse = r.Pickstr("close-on-accept", "handshake-err", "query-err", "close-on-query", "close-on-query")
 			}
 			res := runAttemptCustom(s, m, h, mp, opts, streamMuUnlockedOnDump)
 			seen = append(seen, fmt.Sprintf("queries=%q dumps=%d", res.queries, len(res.dumps)))
@@ -716,7 +717,7 @@ func aliasHistory(r *RNG, cfg string, blobLen int) *hist {
 	// string-like columns (sub-slices of the event buffer), zero timestamps, and one column of every formatted
 	// type holding the same "zero" value in every row: a decoder that hands out a shared constant for such a value
 	// shows up as two delivered values overlapping / as a scribble changing a later delivery
-	kinds := []colKind{{15, 300}, {252, 4}, {16, 3<<8 | 4}, {254, stringMd(254, 30)}, {7, 0}, {17, 0}, {17, 3}, {255, 2}, {3, 0}, {246, 10<<8 | 2},
+	kinds := []colKind{{15, 300}, {252, 4}, {16, 3<<8 | 4}, {254, stringMd(254, 30)}, {247, 2}, {247, 1}, {7, 0}, {17, 0}, {17, 3}, {255, 2}, {3, 0}, {246, 10<<8 | 2},
 		{13, 0}, {10, 0}, {11, 0}, {12, 0}, {19, 0}, {18, 0}, {1, 0}, {8, 0}, {246, 5 << 8}, {254, 247<<8 | 1}, {254, 248<<8 | 2}, {4, 4}, {5, 8}}
 	for i, k := range kinds {
 		t.cols = append(t.cols, hCol{typ: k.typ, md: k.md, nullable: true, name: fmt.Sprintf("c%d", i)})
@@ -901,6 +902,20 @@ func extraC08(col *Collector, r *RNG, tier string) {
 					ok, key = false, "delivered-value-altered"
 					note = "with a handler that " + map[bool]string{true: "overwrites what it receives", false: "keeps what it receives"}[opts.scribble] + ", a delivery differs from the binlog: " +
 						firstDiff(res.calls, strings.Split(f0["spec"], "&"), "x#", "y#")
+				}
+				if !ok && os.Getenv("VERIF_DEBUG") != "" {
+					fmt.Fprintf(os.Stderr, "C08 ret=%s err=%s\n", clip(res.streamRet, 300), clip(res.errorRet, 100))
+					gs, ws := strings.Split(got, ","), strings.Split(f0["spec"], ",")
+					for k := range gs {
+						if k >= len(ws) || gs[k] != ws[k] {
+							w := ""
+							if k < len(ws) {
+								w = ws[k]
+							}
+							fmt.Fprintf(os.Stderr, "C08 diff at field %d: got %s want %s\n", k, clip(gs[k], 200), clip(w, 200))
+							break
+						}
+					}
 				}
 				if opts.deep && !res.snapshotsEqual {
 					ok, key, note = false, "delivered-value-unstable", res.snapshotNote
